@@ -15,6 +15,9 @@ func runSpecial(name string, seed uint64, cases int, out func(cmd, obs J), stats
 	case "conc":
 		runConcProfile(seed, cases, out, stats)
 		return true
+	case "rt":
+		runRtProfile(seed, cases, out, stats)
+		return true
 	case "enc":
 		runEncProfile(seed, cases, out, stats)
 		return true
